@@ -227,6 +227,10 @@ class Executor:
                 else:
                     self.probe("c10_flip_detectable")
             return r
+        if k == "cache_hibit":
+            r = w.op_cache_hibit(op["field"], op.get("nth", 0))
+            self._cache_faulted(op, r)
+            return r
         if k == "cache_replace":
             r = w.op_cache_replace(op["kind"])
             self._cache_faulted(op, r)
